@@ -220,68 +220,8 @@ pub fn oracle_lowered(t: &Tables, c: &LoweredCase, p: &mut Probe) -> Result<(), 
     Ok(())
 }
 
-/// The C04 side of the same states: an instruction that *succeeds* must not have put a new value onto a stack
-/// that is (still) above its maximum afterwards - "no successful insertion ever leaves the stack larger than its
-/// current maximum size, even if that maximum was changed after elements were added".  Removing, and
-/// rearranging what is there, is not an insertion: only a value the stack did not hold before counts.
-pub fn oracle_lowered_insertions(t: &Tables, c: &LoweredCase, p: &mut Probe) -> Result<(), Fail> {
-    use ordered_float::OrderedFloat;
-    let mut state = c.vm.real(t, 1).map_err(|e| Fail::new("setup/state-construction", e))?;
-    macro_rules! lower {
-        ($ty:ty, $k:expr) => {{
-            let size = state.stack::<$ty>().size();
-            if c.lower[$k] > 0 && size > 0 {
-                state.stack_mut::<$ty>().set_max_stack_size(size.saturating_sub(usize::from(c.lower[$k])));
-            }
-        }};
-    }
-    lower!(PushProgram, 0);
-    lower!(i64, 1);
-    lower!(OrderedFloat<f64>, 2);
-    lower!(bool, 3);
-    let Some(instr) = c.vm.instr.as_ref() else { return Ok(()) };
-    let Some(real) = t.program(instr) else { fail!("setup/no-real-instruction", "{instr:?} has no real counterpart") };
-    let name = prog_name(instr);
-    let before = snap(&state);
-    let after = match guarded(move || real.perform(state)) {
-        Err(panic) => fail!(format!("{name}/panic:{}", panic_key(&panic)), "{name} on a state with maxima lowered below the sizes ({:?}) panicked: {panic}", c.lower),
-        Ok(Err(e)) => {
-            // all-or-nothing: an operation that reports a failure leaves the contents of every stack as they were
-            let after = snap(&e.into_state());
-            if !(after.exec == before.exec && after.int == before.int && after.boolean == before.boolean && after.float.len() == before.float.len() && after.float.iter().zip(&before.float).all(|(x, y)| x == y || (f64::from_bits(*x).is_nan() && f64::from_bits(*y).is_nan()))) {
-                fail!(
-                    format!("{name}/contents-changed-by-failing-instruction"),
-                    "{name} reported a failure on a state whose maxima had been lowered below the stack sizes by {:?}, but the stacks are not as they were.\nbefore: {before:?}\nafter:  {after:?}",
-                    c.lower
-                );
-            }
-            p.nontrivial = true;
-            return Ok(());
-        }
-        Ok(Ok(s)) => snap(&s),
-    };
-    fn new_value<T: PartialEq>(before: &[T], after: &[T]) -> bool {
-        // some value occurs more often afterwards than before
-        after.iter().any(|v| after.iter().filter(|x| *x == v).count() > before.iter().filter(|x| *x == v).count())
-    }
-    let over = [
-        ("exec", after.exec.len() > after.maxes[0] && new_value(&before.exec, &after.exec)),
-        ("int", after.int.len() > after.maxes[1] && new_value(&before.int, &after.int)),
-        ("float", after.float.len() > after.maxes[2] && new_value(&before.float, &after.float)),
-        ("bool", after.boolean.len() > after.maxes[3] && after.boolean.len() > before.boolean.len()),
-    ];
-    if let Some((which, _)) = over.iter().find(|(_, bad)| *bad) {
-        fail!(
-            format!("{name}/insertion-above-lowered-maximum"),
-            "{name} succeeded and left a value it produced on the {which} stack although that stack holds more elements than its (lowered) maximum.\nbefore: {before:?}\nafter:  {after:?}"
-        );
-    }
-    p.nontrivial = true;
-    Ok(())
-}
-
 /// every instruction x sizes {0..3}^4 x one stack (or all four) lowered below its size by 1 or 2
-pub fn lowered_shapes(t: &Tables, seed: u64) -> Vec<LoweredCase> {
+fn lowered_shapes(t: &Tables, seed: u64) -> Vec<LoweredCase> {
     let patterns: [[u8; 4]; 9] = [[1, 0, 0, 0], [0, 1, 0, 0], [0, 0, 1, 0], [0, 0, 0, 1], [2, 0, 0, 0], [0, 2, 0, 0], [0, 0, 2, 0], [0, 0, 0, 2], [1, 1, 1, 1]];
     let mut out = vec![];
     for vm in shapes(t, seed) {
